@@ -6,17 +6,6 @@ Require Import MV.Lib.Base MV.C13.Defs MV.C13.Gen MV.C13.Model MV.C13.Proofs_Bas
 Import ListNotations.
 Open Scope Z_scope.
 
-Lemma dedupE_NoDup seen l : NoDup (dedupE seen l) /\ forall x, In x (dedupE seen l) -> ~ In x seen.
-Proof.
-  revert seen. induction l as [|e t IH]; intros seen; cbn; [split; [constructor|intros x []]|].
-  destruct (mem_edge e seen) eqn:E; [apply IH|].
-  destruct (IH (e :: seen)) as [H1 H2]. split.
-  - constructor; auto. intros Hin. apply (H2 e Hin). left; reflexivity.
-  - intros x [<-|Hx].
-    + intros Hin. apply mem_edge_In in Hin. congruence.
-    + intros Hin. apply (H2 x Hx). right; auto.
-Qed.
-
 Lemma same_elements_length (l R : list edge) :
   NoDup R -> (forall x, In x l <-> In x R) -> length (dedupE [] l) = length R.
 Proof.
@@ -232,9 +221,9 @@ Proof.
   { apply forallb_forall. intros e He. destruct (Hes e He) as [f [a [b [Hf [Hd ->]]]]].
     unfold input_ok in Hin. rewrite Forall_forall in Hin. destruct (Hin f Hf) as [[_ Hv] Hne].
     rewrite Forall_forall in Hv. apply dedges_In in Hd as Hab. destruct Hab as [Ha Hb]. apply keyE_valid; auto. }
-  unfold prepare_edges. rewrite Hvalid. cbn [pr]. unfold exact_edges. cbn [re rf].
   assert (Hid : map keyE es = es).
   { rewrite <- (map_id es) at 2. apply map_ext_in. intros e He. destruct (Hes e He) as [f [a [b [_ [_ ->]]]]]. apply keyE_idem. }
+  rewrite (prepare_edges_clean _ _ Hvalid) by (rewrite Hid; exact Hnd). cbn [pr]. unfold exact_edges. cbn [re rf].
   split.
   - rewrite map_map. rewrite (map_ext_in _ keyE) by (intros e _; apply keyE_idem). now rewrite Hid.
   - intros e He. rewrite Hid in He. destruct (Hes e He) as [f [a [b [Hf [Hd ->]]]]].
